@@ -17,8 +17,8 @@ class C12Stream(G.TreeStream):
         t = G.totals(roots)
         want = {"grid": t["load"] + t["P"] + t["C"] + t["B"] + t["E"], "consumer": t["load"], "producer": t["P"] + t["C"],
                 "battery": t["B"], "pv": t["P"], "pvids": t["P"], "ev": t["E"], "chp": t["C"]}
-        bsel, psel = G.sel_of(case)
-        want["batsub"] = sum(n["p"] for n in G.walk(roots) if n["k"] == "B" and n["id"] in bsel)
+        bids, psel = G.sel_of(case)
+        want["batsub"] = sum(n["p"] for n in G.pool_inverters(roots, bids)[0])
         want["pvsub"] = sum(n["p"] for n in G.walk(roots) if n["k"] == "P" and (n["id"] in psel or not psel))
         for name in G.FORMULAS:
             f = obs[name]
@@ -85,6 +85,10 @@ META = {
                   "two predecessors is outside the premise. A CHP below the grid meter itself (grid -> meter -> CHPs only) is "
                   "outside the premise: consumer/producer formulas then read the CHP component, which has no power stream "
                   "(Example C12_chp_below_grid_meter_is_read_directly). NaN/None handling of missing samples is C13's subject. "
+                  "Shared batteries: battery inverters below the same parent may share batteries (1:N, N:1, N:M; behind a "
+                  "battery meter, a mixed meter, at the grid); the model keeps batteries as ids inside BatInv and assumes "
+                  "nothing about disjointness, the battery theorems sum inverter powers, and a battery pool is requested by "
+                  "battery ids (defined iff every inverter of a requested battery has all its batteries requested). "
                   "Statefulness of the graph OBJECT (anything it remembers across refresh_from) is not in the model, which is "
                   "per topology; it is tied by the `refresh` stream, which takes one graph object through 2-3 topologies that "
                   "re-use the component ids and compares all formulas with the model/oracle of the current topology each time. "
